@@ -260,8 +260,79 @@ def rule_json(progs, tier, kind="standard"):
                 )
             else:
                 res.ok({"engine": name, "lane_sweep": n, "representatives": len(reps), "positions": len(list(positions))})
-        res.require_floor(5 if kind == "standard" else 4, "engine tabulations")
+        # whole SIMD builders over chunk-boundary families (loop extent, state carry, padded tail)
+        builders = {
+            "sse2-builder": "json::simd::x86::build_semi_index_%s" % kind,
+            "avx2-builder": "json::simd::avx2::build_semi_index_%s" % kind,
+            "dispatch-builder": "json::simd::build_semi_index_%s" % kind,
+        }
+        fam = boundary_family(tier)
+        for bname, fid in builders.items():
+            if not P.find(fid):
+                res.bad("json-%s:%s" % (kind, bname), "builder %s not found (anchor missing)" % fid)
+                continue
+            bad = None
+            n = 0
+            try:
+                wb = WholeBuilder(P, fid, kind)
+                for data in fam:
+                    st, tr = wb._run(data)
+                    ib = bp = ""
+                    cur = "InJson"
+                    for b in data:
+                        i1, b1, cur = ref[(b, cur)]
+                        ib += i1
+                        bp += b1
+                    n += 1
+                    if (tr["ib"], tr["bp"], st) != (ib, bp, cur) and bad is None:
+                        bad = (data, (tr["ib"], tr["bp"], st), (ib, bp, cur))
+            except (Unsupported, KeyError) as e:
+                res.bad("json-%s:%s" % (kind, bname), "cannot evaluate builder %s: %s" % (fid, e))
+                continue
+            except Panic as e:
+                res.bad("json-%s:%s" % (kind, bname), "builder %s panics or reads out of bounds on a %d-byte input: %s" % (fid, len(data), e))
+                continue
+            res.cells += n
+            res.engines += 1
+            if bad:
+                data, got, exp = bad
+                k = next((i for i in range(min(len(got[0]), len(exp[0]))) if got[0][i] != exp[0][i]), None)
+                res.bad("json-%s:%s" % (kind, bname), "builder %s on a %d-byte input %r...: (ib,bp,final state) differs from the reference fold (first ib difference at byte %s; final state %s vs %s; bp lengths %d vs %d)" % (fid, len(data), bytes(data[:40]), k, got[2], exp[2], len(got[1]), len(exp[1])))
+            else:
+                res.ok({"engine": bname, "inputs": n})
+        res.require_floor(8 if kind == "standard" else 7, "engine tabulations")
     return out
+
+
+def boundary_family(tier):
+    """Inputs whose interesting bytes sit at and around the 16/32-byte chunk edges, with the
+    scanner in each state when the edge is crossed."""
+    fam = [[]]
+    lens = [1, 15, 16, 17, 31, 32, 33, 47, 48, 49, 63, 64, 65, 70] if tier == "thorough" else [1, 16, 17, 32, 33, 48, 65]
+    for L in lens:
+        fam.append([0x20] * L)
+        fam.append([0x61] * L)  # one long value
+        fam.append([0x22] + [0x78] * (L - 1) if L > 1 else [0x22])  # unterminated string
+        for p in sorted({0, 14, 15, 16, 17, 30, 31, 32, 33, 46, 47, 48, L - 2, L - 1}):
+            if not (0 <= p < L):
+                continue
+            # string opened before p, escape / quote / backslash-quote at the edge
+            for seq in ([0x5C, 0x22], [0x22], [0x5C, 0x5C, 0x22], [0x5C]):
+                d = [0x22] + [0x78] * (L - 1)
+                for j, b in enumerate(seq):
+                    if 1 <= p + j < L:
+                        d[p + j] = b
+                fam.append(d + [0x2C, 0x31, 0x5D])
+            # structural and value bytes at the edge outside strings
+            for b in (0x7B, 0x7D, 0x5B, 0x5D, 0x2C, 0x3A, 0x31, 0x2D, 0x74):
+                d = [0x20] * L
+                d[p] = b
+                fam.append(d)
+            d = [0x31] * L  # value running across the edge then ended by a delimiter at p
+            d[p] = 0x2C
+            fam.append(d)
+    fam.append(list(b'{"a":[1,2,{"b":"c\\\"d"}],"e":null,"f":-1.5e+10}' * 3))
+    return fam
 
 
 def spec_table(kind):
